@@ -49,7 +49,7 @@ ASSUMPTIONS = [
     "wall-clock watchdog only makes a run inconclusive",
 ]
 FLOORS = {"quick": {"nesting_depths_swept": 4000, "socket_level_misbehaviours": 20,
-                    "backtracking_baits": 100,
+                    "backtracking_baits": 100, "multibyte_run_lines": 500,
                     "evaluations": 10000, "raw_lines": 1500, "json_hostile": 300,
                     "structure_aware": 8000, "live_lines": 100, "answered": 12000,
                     "hostile_leaves": 150},
@@ -147,6 +147,30 @@ def raw_lines(rng, n, maxlen):
             yield "raw:flip", s[:j] + bytes([s[j] ^ (1 << rng.randrange(8))]) + s[j + 1:] + b"\n"
         else:
             yield "raw:bom", b"\xef\xbb\xbf" + b'{"command":"version"}\n'
+
+
+def multibyte_runs(rng, quick, shard):
+    chars = ["\u00e9", "\u20ac", "\U0001d11e"]          # 2, 3 and 4 bytes in UTF-8
+    lengths = [5000, 9000] + ([70000] if shard % 4 == 0 else []) + \
+        ([300000, 1100000] if not quick and shard % 8 == 0 else [])
+    for ch in chars:
+        width = len(ch.encode())
+        for shift in range(width):
+            for total in lengths:
+                run = ch * ((total // width) + 1)
+                pad = "a" * shift
+                yield "mb:ignored-field-%d" % width, json.dumps(
+                    {"command": "version", "memo": pad + run}, ensure_ascii=False).encode() + b"\n"
+                yield "mb:keyid-%d" % width, json.dumps(
+                    {"command": "getPubKey", "version": 5, "keyId": pad + run},
+                    ensure_ascii=False).encode() + b"\n"
+                if total <= 9000:
+                    yield "mb:command-%d" % width, json.dumps(
+                        {"command": pad + run, "version": 5}, ensure_ascii=False).encode() + b"\n"
+                    yield "mb:not-json-%d" % width, (pad + run).encode() + b"\n"
+                    yield "mb:valid-request-first-%d" % width, json.dumps(
+                        {"command": "getPubKey", "version": 5, "keyId": "m/44'/0'/0'/0/0",
+                         "note": pad + run}, ensure_ascii=False).encode() + b"\n"
 
 
 def json_hostile(rng, n, big):
@@ -460,6 +484,14 @@ def run_shard(spec, acc):
             feed(cls, rng.random() < 0.2, line, {"kind": "line", "v1": False,
                                                  "line": line[:4096].hex(),
                                                  "len": len(line)})
+        # (1b) long runs of multi-byte characters, in every alignment: whatever byte
+        # offset some layer cuts, pads or wraps a line at, one of these has a character
+        # sitting across it
+        for cls, line in multibyte_runs(rng, quick, spec["shard"]):
+            acc.count("multibyte_run_lines")
+            feed(cls, rng.random() < 0.2, line, {"kind": "line", "v1": False, "len": len(line),
+                                                 "line": line.hex() if len(line) < 20000
+                                                 else None})
         # (2) JSON hostile
         for cls, line in json_hostile(rng, 36 if quick else 240, not quick):
             acc.count("json_hostile")
